@@ -380,12 +380,15 @@ impl LogInnerManager {
         }
         let (index_dto, file_index_len, pop_index_count) =
             self.get_file_index_by_log_index(end_index)?;
-        let empty_data = vec![0u8, 1];
+        let old_data_cursor = self.data_cursor;
         if pop_index_count > 0 {
             for _i in 0..pop_index_count {
                 self.indexs.pop();
             }
             self.index_cursor -= file_index_len;
+            //clear the removed index entries: an entry written later may be shorter
+            //and must not be followed by bytes of a removed one
+            let empty_data = vec![0u8; file_index_len as usize];
             self.index_file
                 .seek(SeekFrom::Start(self.index_cursor))
                 .await?;
@@ -406,10 +409,18 @@ impl LogInnerManager {
         self.data_cursor = data_cursor;
         self.msg_count = msg_count;
         self.current_index_count = current_index_count as u16;
+        //clear the removed records: records appended later may be shorter
+        //and must not be followed by bytes of a removed one
         self.data_file
             .seek(SeekFrom::Start(self.data_cursor))
             .await?;
-        self.data_file.write_all(&empty_data).await?;
+        let mut left = old_data_cursor.saturating_sub(self.data_cursor);
+        let empty_data = vec![0u8; std::cmp::min(left, 64 * 1024) as usize];
+        while left > 0 {
+            let n = std::cmp::min(left, empty_data.len() as u64) as usize;
+            self.data_file.write_all(&empty_data[..n]).await?;
+            left -= n as u64;
+        }
         self.data_file
             .seek(SeekFrom::Start(self.data_cursor))
             .await?;
